@@ -301,3 +301,233 @@ def general(case, rec, ref, run=0, cancelled=False):
     vs += o_calls(case, rec, ref, view, complete=not cancelled)
     vs += o_retry(case, rec, ref, view)
     return vs, view
+
+
+# -------------------------------------------------------------------------------------------
+def o_oneof_order(case, rec, ref, view: RunView):
+    """C10: nodes first needed by candidate j start only after candidate j-1 is known to have failed"""
+    vs = []
+    first_start = {}
+    for seq, vt, node, kd, idx, kw in view.starts:
+        first_start.setdefault(node, seq)
+    for consumer, kw, detail in ref.oneof_detail:
+        for prev, cur in zip(detail, detail[1:]):
+            if prev['ok']:
+                continue
+            raise_seqs = []
+            for c in prev['causes']:
+                if c[0] == 'tok':
+                    r = view.raises.get((c[1], c[2], c[3]))
+                    if r is not None:
+                        raise_seqs.append(r[0])
+            if not raise_seqs:
+                continue
+            known = min(raise_seqs)
+            ctx = (consumer, kw, cur['cand'])
+            outside = ref.needed_outside(ctx)
+            private = [x for x in cur['new'] if x not in outside]
+            for x in sorted(private):
+                s = first_start.get(x)
+                if s is not None and s < known:
+                    vs.append(Violation({'C10'}, 'candidate_started_early',
+                                        f'{x} (needed only from candidate {cur["cand"]} of {consumer}.{kw}) started '
+                                        f'before candidate {prev["cand"]} had failed', view.run))
+                    return vs
+    return vs
+
+
+SYNTH_PREFIXES = ('switch__', 'input_one_of__')
+
+
+def o_events(case, rec, ref, view: RunView, em_idx=0, cancelled=False):
+    """C14: well-formedness automaton over the event word of one (non-raising) event manager, merged
+    with the body trace"""
+    vs = []
+    run = view.run
+    word = [(seq, kind, node, payload) for seq, kind, node, payload in view.events if payload and payload[0] == em_idx]
+    if not word:
+        return [Violation({'C14'}, 'no_events', 'event manager registered but nothing observed', run)]
+    P = {'C14'}
+    if word[0][1] != 'pipeline_start':
+        vs.append(Violation(P, 'first_event_not_pipeline_start', f'first event {word[0][1]}', run))
+    n_start = sum(1 for w in word if w[1] == 'pipeline_start')
+    n_compl = sum(1 for w in word if w[1] == 'pipeline_complete')
+    if n_start != 1:
+        vs.append(Violation(P, 'pipeline_start_count', f'{n_start} on_pipeline_start', run))
+    finished = rec.status == DONE and rec.outcomes[run][0] in ('value', 'error')
+    if finished:
+        if n_compl != 1:
+            vs.append(Violation(P, 'pipeline_complete_count', f'{n_compl} on_pipeline_complete', run))
+        elif word[-1][1] != 'pipeline_complete':
+            vs.append(Violation(P, 'event_after_pipeline_complete', f'last event is {word[-1][1]} {word[-1][2]}', run))
+        else:
+            got = (rec.complete_results or {}).get(run) or []
+            res = rec.results[run]
+            if not any(g is res for g in got):
+                vs.append(Violation(P, 'pipeline_complete_other_result',
+                                    'on_pipeline_complete did not carry the PipelineResult that run returned', run))
+    elif n_compl > 1:
+        vs.append(Violation(P, 'pipeline_complete_count', f'{n_compl} on_pipeline_complete', run))
+    # merged per-node automaton
+    merged = []
+    for seq, kind, node, payload in word:
+        if kind in ('node_start', 'node_complete'):
+            merged.append((seq, kind, node, payload))
+    for seq, vt, node, kd, idx, kw in view.starts:
+        merged.append((seq, 'body_start', node, (kd, idx, kw)))
+    for (node, kd, idx), (seq, vt, oc) in view.raises.items():
+        merged.append((seq, 'body_raise', node, (kd, idx, oc)))
+    for (node, kd, idx), (seq, vt, val) in view.ends.items():
+        merged.append((seq, 'body_end', node, (kd, idx, val)))
+    for seq, vt, node, kd in view.defaults:
+        merged.append((seq, 'default', node, (kd,)))
+    merged.sort(key=lambda x: x[0])
+    st = {}   # node -> dict(state, pending_raise, last_ok, completes)
+    ok_complete_seq = defaultdict(list)
+    for seq, kind, node, payload in merged:
+        if isinstance(node, str) and node.startswith(SYNTH_PREFIXES):
+            vs.append(Violation(P, 'synthetic_node_event', f'{kind} for synthetic node {node}', run))
+            return vs
+        s = st.setdefault(node, {'state': 'idle', 'pending': None, 'value': False})
+        if kind == 'node_start':
+            if s['state'] == 'open':
+                vs.append(Violation(P, 'node_start_twice', f'{node}: on_node_start while an execution is open '
+                                    '(no on_node_complete since the previous on_node_start)', run))
+                return vs
+            s.update(state='open', pending=None, value=False, attempts=0)
+        elif kind == 'body_start':
+            if s['state'] not in ('open', 'retry'):
+                vs.append(Violation(P, 'body_outside_node_start', f'{node}: body invoked without a preceding '
+                                    'on_node_start of this execution', run))
+                return vs
+            if s['pending'] is not None:
+                vs.append(Violation(P, 'attempt_without_complete', f'{node}: next attempt started before '
+                                    'on_node_complete(error) of the failed attempt', run))
+                return vs
+            s['state'] = 'open'
+        elif kind == 'body_raise':
+            s['pending'] = ('tok', run, node, payload[0], payload[1])
+        elif kind == 'body_end':
+            s['value'] = True
+        elif kind == 'default':
+            s['value'] = True
+            s['pending'] = None
+        elif kind == 'node_complete':
+            err = payload[1]
+            if s['state'] == 'idle':
+                vs.append(Violation(P, 'node_complete_without_start', f'{node}: on_node_complete without '
+                                    'on_node_start', run))
+                return vs
+            if err is None:
+                if s['pending'] is not None:
+                    vs.append(Violation(P, 'complete_ok_after_failure', f'{node}: on_node_complete(error=None) '
+                                        f'although the attempt raised {s["pending"]}', run))
+                    return vs
+                if not s['value']:
+                    vs.append(Violation(P, 'complete_ok_without_value', f'{node}: on_node_complete(error=None) '
+                                        'but the node produced no value', run))
+                    return vs
+                ok_complete_seq[node].append(seq)
+                s.update(state='closed', pending=None)
+            else:
+                if s['pending'] is None:
+                    vs.append(Violation(P, 'complete_error_without_failure', f'{node}: on_node_complete(error='
+                                        f'{err}) but no attempt failed', run))
+                    return vs
+                if tuple(err) != tuple(s['pending']):
+                    vs.append(Violation(P, 'complete_wrong_error', f'{node}: on_node_complete reported {err}, the '
+                                        f'attempt raised {s["pending"]}', run))
+                    return vs
+                s.update(state='retry', pending=None)
+    # value delivered before successful complete?
+    prod_ends = defaultdict(list)
+    for (node, kd, idx), (seq, vt, val) in view.ends.items():
+        prod_ends[(node, kd)].append(seq)
+    def_ends = defaultdict(list)
+    for ds, dv, dn, dk in view.defaults:
+        def_ends[(dn, dk)].append(ds)
+    for seq, vt, node, kd, idx, kw in view.starts:
+        for k, v in kw:
+            if v.startswith("('v','") or v.startswith("('d','"):
+                parts = v.split("','")
+                src, skd = parts[1], parts[2].split("'")[0]
+                cand = [x for x in (prod_ends if v.startswith("('v','") else def_ends).get((src, skd), ()) if x < seq]
+                if not cand:
+                    continue
+                e = max(cand)
+                if not any(e < c < seq for c in ok_complete_seq.get(src, ())):
+                    vs.append(Violation(P, 'value_before_complete',
+                                        f'{node} received the value of {src} before its successful on_node_complete', run))
+                    return vs
+    # counts on successful runs
+    if finished and ref.outcome.ok and rec.outcomes[run][0] == 'value' and not cancelled:
+        starts = defaultdict(int)
+        completes = defaultdict(int)
+        for seq, kind, node, payload in word:
+            if kind == 'node_start':
+                starts[node] += 1
+            elif kind == 'node_complete':
+                completes[node] += 1
+        forced = defaultdict(int)
+        for n, kd in ref.forced_defaults:
+            forced[n] += 1
+        for n in sorted(ref.must):
+            att = ref.exec_attempts.get(n, [])
+            want_s = len(att) + forced[n]
+            want_c = sum(att) + forced[n]
+            if starts[n] != want_s:
+                vs.append(Violation(P, 'node_start_count', f'{n}: {starts[n]} on_node_start, {want_s} executions', run))
+                break
+            if completes[n] != want_c:
+                vs.append(Violation(P, 'node_complete_count',
+                                    f'{n}: {completes[n]} on_node_complete, {want_c} attempts', run))
+                break
+    return vs
+
+
+def o_store(case, rec, ref, view: RunView):
+    """C19: each executed node's final value saved exactly once; no Recurrent / failure artifacts"""
+    vs = []
+    P = {'C19'}
+    run = view.run
+    for seq, node, val, tname in view.saves:
+        if tname == 'Recurrent':
+            vs.append(Violation(P, 'recurrent_marker_saved', f'{node}: intermediate Recurrent marker saved', run))
+            return vs
+        if val.startswith('<exc'):
+            vs.append(Violation(P, 'failure_saved', f'{node}: failure object {val} saved as artifact', run))
+            return vs
+    if not (ref.outcome.ok and rec.status == DONE):
+        return vs
+    if rec.outcomes[run][0] != 'value':
+        vs.append(Violation(P, 'store_made_run_fail',
+                            f'reference yields a value; with the store configured the run ended {rec.outcomes[run][:3]}', run))
+        return vs
+    count = defaultdict(list)
+    for seq, node, val, tname in view.saves:
+        count[node].append(val)
+    executed = {node for seq, vt, node, kd, idx, kw in view.starts}
+    executed |= {n for seq, vt, n, kd in view.defaults}
+    # nodes whose execution completed with a value in this run (a node that failed - contained by a one-of - or
+    # that was still in flight when the run ended has no value to save)
+    completed = {n for (n, kd, idx), (seq, vt, val) in view.ends.items() if not val.startswith("('R'")}
+    completed |= {n for seq, vt, n, kd in view.defaults}
+    for n in sorted(executed):
+        fin = ref.final.get(n)
+        if fin is None:
+            continue
+        want = 1 if (fin.ok and n in completed) else 0
+        if n not in ref.must and len(count[n]) == 0:
+            continue
+        if len(count[n]) != want:
+            vs.append(Violation(P, 'save_count', f'{n}: saved {len(count[n])} times, expected {want}', run))
+            return vs
+        if want and count[n][0] != vrepr(fin.val):
+            vs.append(Violation(P, 'saved_value_not_final', f'{n}: saved {count[n][0]}, final value {vrepr(fin.val)}',
+                                run))
+            return vs
+    for n in count:
+        if n not in executed and not (isinstance(n, str) and n.startswith(SYNTH_PREFIXES)):
+            vs.append(Violation(P, 'save_of_unexecuted_node', f'{n}', run))
+            return vs
+    return vs
